@@ -30,13 +30,26 @@ def bsd_decoders():
     return [n for n in D.decoder_names() if n.startswith('BSC_') and n not in EXEMPT]
 
 
-def render(name, s, e, nlook):
-    p = TracesParser(E.codes(), {}, {})
-    evs = [E.ev(name, 1, s)] + lookups(nlook) + [E.ev(name, 2, e)]
-    out = [t for t in p.feed_generator(E.restamp(evs)) if t.ktraces[0].eventid == evs[0].eventid]
+def render(name, s, e, nlook, shape=None):
+    """shape None: START, lookups, END. 'long': 5000 stand-alone same-thread records in between. 'crossing': another thread is
+    inside the same call with other END words (A.START B.START A.END B.END), parser built with a populated thread map."""
+    p = E.new_traces_parser(prefilled=shape in ('crossing', 'enclosing'))
+    mid = lookups(nlook)
+    if shape == 'long':
+        mid = [E.ev('MACH_vm_page_release' if i % 2 else 'MACH_WAIT', 0, (0x9a9a, 0x9b9b, 0x9c9c, 0x9d9d)) for i in range(5000)] + mid
+    evs = [E.ev(name, 1, s)] + mid + [E.ev(name, 2, e)]
+    judged = len(evs) - 1
+    if shape == 'crossing':
+        evs = [E.ev(name, 1, s), E.ev(name, 1, s, tid=2)] + mid + [E.ev(name, 2, e), E.ev(name, 2, (0x9a, 0x9b9b, 0x9c9c, 0x9d9d), tid=2)]
+        judged = len(evs) - 2
+    if shape == 'enclosing':
+        # the other thread's whole call falls inside ours: A.START B.START B.END A.END
+        evs = [E.ev(name, 1, s), E.ev(name, 1, s, tid=2), E.ev(name, 2, (0x9a, 0x9b9b, 0x9c9c, 0x9d9d), tid=2)] + mid + [E.ev(name, 2, e)]
+        judged = len(evs) - 1
+    out = [t for t in p.feed_generator(E.restamp(evs)) if t.ktraces[0].eventid == evs[0].eventid and t.ktraces[-1].timestamp == judged]
     if len(out) != 1:
         return None
-    return str(out[0])
+    return E.stable_str(out[0])
 
 
 def judge_decoder(name, starts, nlooks, acc):
@@ -51,10 +64,14 @@ def judge_decoder(name, starts, nlooks, acc):
             for err in ERRS:
                 for ret in RETS:
                     for tail in TAILS:
+                      for shape in ((None, 'long', 'crossing', 'enclosing') if (err in (0, 2, 9999) and ret in (0x55, M64) and tail == TAILS[1] and si == 0) else (None,)):
                         e = (err, ret) + tail
-                        case = {'decoder': name, 'start': [hex(x) for x in s], 'end': [hex(x) for x in e], 'lookups': nlook}
+                        case = {'decoder': name, 'start': [hex(x) for x in s], 'end': [hex(x) for x in e], 'lookups': nlook, 'shape': shape}
                         try:
-                            txt = render(name, s, e, nlook)
+                            txt = render(name, s, e, nlook, shape)
+                            if txt is None and shape is not None:
+                                bad.append((f'result-lost-in-{shape}-window@{name}', case, {}))
+                                continue
                         except Exception as ex:
                             bad.append((f'render-raised:{type(ex).__name__}@{name}', case, {'error': repr(ex)[:200]}))
                             acc.case(nontrivial=True, transitions=2)
@@ -96,6 +113,9 @@ def judge_decoder(name, starts, nlooks, acc):
                                                     {'text': txt, 'literal': lit}))
                                         break
                         key = (e, nlook)
+                        if shape is not None and key in per_end_rest and per_end_rest[key][0] != rest:
+                            bad.append((f'result-part-differs-in-{shape}-window@{name}', case, {'text': txt, 'plain_result_part': per_end_rest[key][0]}))
+                            continue
                         if key in per_end_rest:
                             if per_end_rest[key][0] != rest:
                                 bad.append((f'result-part-depends-on-START@{name}', case,
@@ -113,7 +133,9 @@ class C10(Check):
     rule = ('every BSD decoder outside the exempt list (15 names from the statement) x START tuples {junk (quick); + zeros, '
             'all-ones (thorough)} (enum words forced in-domain) x END tuples = error word {0, every errno 1..106, 107, 255, '
             '9999, 2^31, 2^32, 2^63, 2^64-1} x return word {0,1,0x55,2^31,2^63,2^64-1} x words 2,3 {(0,0),(0x66,0x77)} x '
-            'lookups in window {6 (quick); 0 and 6 (thorough)}. Oracle: error!=0 => result part is exactly ", errno: NAME(code)" '
+            'lookups in window {6 (quick); 0 and 6 (thorough)}; for 12 END tuples per decoder also a window with 5000 stand-alone '
+            'same-thread records between START and END, and crossing / enclosing windows (another thread inside the same call with other END '
+            'words: A.START B.START A.END B.END and A.START B.START B.END A.END, parser built with a populated thread map). Oracle: error!=0 => result part is exactly ", errno: NAME(code)" '
             'or ", errno: code" with that code; error==0 => no errno, every number shown renders END word 1..3; call part '
             'identical across END tuples; result part identical across START tuples. Distinct by construction; non-trivial = '
             'error word non-zero or a success value is shown.')
